@@ -24,7 +24,7 @@ ALLOWED_AXIOMS = ()
 VERIF = coqrun.VERIF
 
 TRUSTED_BASE = [
-    'C14/Model.v, Model_lh.v, Model_misc.v are hand-written from i2c_element.py, ow_element.py, lighthouse_memory.py, '
+    'C14/Model.v, Model_lh.v, Model_misc.v, Model_hist.v, Model_seq.v are hand-written from i2c_element.py, ow_element.py, lighthouse_memory.py, '
     'deck_memory.py, loco_memory.py, loco_memory_2.py, trajectory_memory.py, led_timings_driver_memory.py, '
     'lighthouse_config_manager.py and param_io.py; tied on every run by differential evaluation on generated images '
     '(real classes driven through a byte-array memory handler; temp files for the YAML managers)',
@@ -41,7 +41,7 @@ ASSUMPTIONS = [
     'a read request that does not fit into the memory fails (error status) and the element is not called back',
     'float fields are float32-representable and not signalling NaNs',
 ]
-PROVED = ('Write histories: trajectory pieces, timing list and LED objects are their fields only, so the k-th write of any history is the image of the current fields (C14_layout_write_history_stateless), a compressed trajectory body is read back segment by segment. Histories on one I2CElement/OWElement object (any sequence of update/write_data/disconnect, device image changing in between): the verdict of an update() is the verdict of that read alone, never a value left from an earlier read; pending implies not valid. For all representable contents: EEPROM (v0/v1) and 1-wire images written by the library parse back to '
+PROVED = ('Sequencing layer: for every choice of geometries/calibrations (any ids), system type, failing writes and persist result LighthouseConfigWriter holds exactly the stated conversation with the device (the device receives exactly the accepted images of the prepared dictionaries), completes exactly once with success = no write failed, leaves nothing armed; read_all returns exactly the stations that answered. Write histories: trajectory pieces, timing list and LED objects are their fields only, so the k-th write of any history is the image of the current fields (C14_layout_write_history_stateless), a compressed trajectory body is read back segment by segment. Histories on one I2CElement/OWElement object (any sequence of update/write_data/disconnect, device image changing in between): the verdict of an update() is the verdict of that read alone, never a value left from an earlier read; pending implies not valid. For all representable contents: EEPROM (v0/v1) and 1-wire images written by the library parse back to '
           'equal content, valid and complete; valid is True exactly when token/version/checksum resp. both CRCs '
           'match; any single corrupted EEPROM byte other than the version byte is detected; the exact condition under '
           'which a version byte 1->0 escapes (F14b); lighthouse geometry/calibration memory layouts and file objects, '
@@ -96,7 +96,7 @@ def sha(obj):
     return hashlib.sha1(json.dumps(obj, sort_keys=True, default=repr).encode()).hexdigest()[:12]
 
 
-HEADER = '''From CF Require Import Common.Bytes C14.Model C14.Model_lh C14.Model_misc C14.Model_hist.
+HEADER = '''From CF Require Import Common.Bytes C14.Model C14.Model_lh C14.Model_misc C14.Model_hist C14.Model_seq.
 From Coq Require Import Ascii.
 Open Scope Z_scope.
 Definition enc_img (o : option (list Z)) : list Z := match o with None => [-1] | Some l => 1 :: l end.
@@ -141,6 +141,24 @@ Definition enc_wr (o : option (Z * list Z)) : list Z :=
   match o with None => [-1] | Some (a, d) => 1 :: a :: d end.
 Definition enc_lhobj (o : lh_obj) : list Z :=
   match o with LGeo g => 1 :: enc_geo (Some g) | LCalib c => 2 :: enc_calib (Some c) | LStructError => [-1] end.
+Definition enc_act (a : act) : list Z :=
+  match a with
+  | AWrite k id img => 1 :: page_addr k id :: Z.of_nat (length img) :: img
+  | ASetParam v => [2; v]
+  | APersist gl cl => 3 :: Z.of_nat (length gl) :: gl ++ Z.of_nat (length cl) :: cl
+  | ACallback b => [4; b2z b]
+  | ARaise c => [5; c]
+  end.
+Definition enc_acts (l : list (list act)) : list Z :=
+  concat (map (fun a => Z.of_nat (length a) :: concat (map enc_act a)) l).
+Definition enc_ract (a : ract) : list Z :=
+  match a with
+  | RRead k id => [1; page_addr k id; match k with KGeo => 49 | KCalib => 61 end]
+  | RCallback res => 2 :: Z.of_nat (length res) :: concat (map (fun io => fst io :: enc_lhobj (snd io)) res)
+  | RRaise c => [5; c]
+  end.
+Definition enc_racts (l : list (list ract)) : list Z :=
+  concat (map (fun a => Z.of_nat (length a) :: concat (map enc_ract a)) l).
 Fixpoint enc_yv (v : yv) : list Z :=
   match v with
   | YNone => [0]
@@ -386,7 +404,7 @@ def i2c_tie(ctx, cases):
         dist['i2c_write_error' if isinstance(r, tuple) else 'i2c_write'] += 1
         cases.add('i2c_write', 'enc_img (i2c_write %s)' % i2c_fields_term(f), i2c_enc_write(r), {'i2c_write': f},
                   nontrivial=not isinstance(r, tuple))
-    for i in range(ctx.scale(350, 6000)):
+    for i in range(ctx.scale(280, 6000)):
         mem, kind = i2c_rnd_mem(rng)
         o = i2c_impl_parse(mem)
         k = kind.split('@')[0]
@@ -645,7 +663,7 @@ def ow_tie(ctx, cases):
     mems = []
     for (pins, vid, pid, els) in ow_special_contents():
         mems.append((ow_ref_image(pins, vid, pid, list(reversed(els))) + bytes([0xFF] * 3), 'collision'))
-    for i in range(ctx.scale(350, 6000)):
+    for i in range(ctx.scale(280, 6000)):
         mems.append(ow_rnd_mem(rng, size=rng.choice([112, 112, 64, 300])))
     for mem, kind in mems:
         o = ow_impl_parse(mem)
@@ -765,7 +783,7 @@ def crc_tie(ctx, cases):
     # all one-byte inputs and all two-byte inputs, in blocks; plus random longer inputs
     cases.add('crc32', 'map (fun b => crc32 [b]) (map Z.of_nat (seq 0 256))', [binascii.crc32(bytes([b])) for b in range(256)],
               {'crc32': 'all 1-byte inputs'})
-    firsts = list(range(256)) if ctx.thorough else sorted(rng.sample(range(256), 12))
+    firsts = list(range(256)) if ctx.thorough else sorted(rng.sample(range(256), 8))
     for a in firsts:
         cases.add('crc32', 'map (fun b => crc32 [%d; b]) (map Z.of_nat (seq 0 256))' % a,
                   [binascii.crc32(bytes([a, b])) for b in range(256)], {'crc32': 'all 2-byte inputs starting with %d' % a})
@@ -2215,7 +2233,7 @@ def ow_hist_check(c):
 
 def hist_tie(ctx, cases):
     rng = ctx.rng
-    n = ctx.scale(110, 1500)
+    n = ctx.scale(90, 1500)
     for i in range(n):
         ops, _ = i2c_rnd_history(rng)
         cases.add('i2c_history', i2c_hist_term(ops), i2c_hist_enc(i2c_hist_impl(ops)), {'i2c_history': ops},
@@ -2805,10 +2823,449 @@ def whist_oracle(ctx, deep):
     return n, fails
 
 
+
+# ---------------------------------------------------------------------------------------------- sequencing layer (helper / config writer)
+
+SEQ_RAISE = {'Write already in prgress': 1, 'Write operation not finished': 2, 'Write operation already ongoing.': 3,
+             'Geometry BS list is not valid': 4, 'Calibration BS list is not valid': 4,
+             'Read operation already ongoing': 5, 'Read operation not finished': 6}
+
+
+class _NoSleep:
+    @staticmethod
+    def sleep(t):
+        pass
+
+
+class SeqEnv:
+    """a Crazyflie stand-in for LighthouseMemHelper / LighthouseConfigWriter: the real LighthouseMemory over the byte-array
+    device, the real Localization object (persist packets are built and decoded by the library), a recorder for parameter
+    writes.  The harness plays the device: it answers each queued memory request when told to."""
+
+    def __init__(self, nr=16, devmem=None):
+        from cflib.crazyflie.localization import Localization
+        from cflib.localization import lighthouse_config_manager as mod
+        from cflib.crazyflie.mem.lighthouse_memory import LighthouseMemHelper
+        self.log = []
+        self.fake = MemFake(devmem if devmem is not None else bytearray(0x2000), grow=False)
+        self.lhmem = _lh_mem(self.fake)
+        self.mem = self
+        self.param = self
+        self.loc = Localization(crazyflie=self)
+        self._mod = mod
+        self.writer = mod.LighthouseConfigWriter(self, nr_of_base_stations=nr)
+        self.helper = LighthouseMemHelper(self)
+        self._wmark = 0
+
+    # -- what the library calls on a Crazyflie
+    def get_mems(self, t):
+        return [self.lhmem]
+
+    def add_port_callback(self, port, cb):
+        pass
+
+    def set_value(self, name, value):
+        self.log.append([2, value] if name == 'lighthouse.systemType' else [9, 0])
+
+    def send_packet(self, pk, *a, **kw):
+        t, mg, mc = struct.unpack('<BHH', bytes(pk.data))
+        gl = [k for k in range(16) if mg >> k & 1]
+        cl = [k for k in range(16) if mc >> k & 1]
+        self.log.append([3, len(gl)] + gl + [len(cl)] + cl)
+
+    # -- bookkeeping
+    def _sync_writes(self):
+        for (addr, data, fl) in self.fake.writes[self._wmark:]:
+            self.log.append([1, addr, len(data)] + list(data))
+        self._wmark = len(self.fake.writes)
+
+    def _call(self, fn):
+        n0 = len(self.log)
+        old_time = self._mod.time
+        self._mod.time = _NoSleep
+        try:
+            fn()
+            self._sync_writes()
+        except Exception as e:  # noqa
+            self._sync_writes()
+            self.log.append([5, SEQ_RAISE.get(str(e.args[0]) if e.args else '', 7 if isinstance(e, struct.error) else 99)])
+        finally:
+            self._mod.time = old_time
+        return self.log[n0:]
+
+    # -- events
+    def start(self, geos, calibs, st):
+        return self._call(lambda: self.writer.write_and_store_config(lambda ok: self.log.append([4, int(bool(ok))]),
+                                                                     geos=geos, calibs=calibs, system_type=st))
+
+    def write_answer(self, ok):
+        """the memory layer reports the outstanding write as done / failed (or a stray report when nothing is queued)"""
+        q = [x for x in self.fake.queue if x[0] == 'w']
+        if q:
+            kind, memory, addr, data = q[0]
+            self.fake.queue.remove(q[0])
+            if ok:
+                self.fake.mem[addr:addr + len(data)] = data
+        else:
+            addr = 0
+        return self._call(lambda: (self.lhmem.write_done if ok else self.lhmem.write_failed)(self.lhmem, addr))
+
+    def ack(self, ok):
+        from cflib.crtp.crtpstack import CRTPPacket, CRTPPort
+        pk = CRTPPacket()
+        pk.port = CRTPPort.LOCALIZATION
+        pk.channel = self.loc.GENERIC_CH
+        pk.data = bytes([self.loc.LH_PERSIST_DATA, 1 if ok else 0])
+        return self._call(lambda: self.loc._incoming(pk))
+
+    # -- reader events
+    def read_start(self, kind, sink):
+        fn = self.helper.read_all_geos if kind == 'geo' else self.helper.read_all_calibs
+        return self._rcall(lambda: fn(lambda res: sink.append(res)), sink)
+
+    def read_answer(self, kind, data):
+        """data: bytes to deliver, or None = the read fails; a stray delivery when no read is queued"""
+        q = [x for x in self.fake.queue if x[0] == 'r']
+        if q:
+            _, memory, addr, n = q[0]
+            self.fake.queue.remove(q[0])
+        else:
+            addr = 0 if kind == 'geo' else 0x1000
+        if data is None:
+            return self._rcall(lambda: self.lhmem.new_data_failed(self.lhmem, addr, bytearray()), None)
+        return self._rcall(lambda: self.lhmem.new_data(self.lhmem, addr, bytearray(data)), None)
+
+    def _rcall(self, fn, sink):
+        r0 = len(self.fake.reads)
+        s0 = len(self._sink) if hasattr(self, '_sink') else 0
+        out = []
+        try:
+            fn()
+        except Exception as e:  # noqa
+            out.append([5, SEQ_RAISE.get(str(e.args[0]) if e.args else '', 7 if isinstance(e, struct.error) else 99)])
+        reads = [[1, a, n] for (a, n) in self.fake.reads[r0:]]
+        return reads + out
+
+
+def seq_objects(kind, spec):
+    """spec: [[id, floats, (uid,) valid], ...] in dictionary order -> (dict of real objects, model term, images)"""
+    d, terms, imgs = {}, [], {}
+    for e in spec:
+        if kind == 'geo':
+            d[e[0]] = lh_mk_geo(e[1], e[2])
+            img = _fw_geo_layout(e[1], e[2])
+        else:
+            d[e[0]] = lh_mk_calib(e[1], e[2], e[3])
+            img = _fw_calib_layout(e[1], e[2], e[3])
+        imgs[e[0]] = img
+        terms.append('(%d, %s)' % (e[0], ZL(img)))
+    return d, '[' + '; '.join(terms) + ']', imgs
+
+
+def seq_rnd_spec(rng, kind):
+    ids = rng.sample(range(16), rng.choice([0, 1, 2, 3, 5, 16]))
+    if rng.random() < 0.5:
+        ids.sort()
+    out = []
+    for k in ids:
+        if kind == 'geo':
+            out.append([k, [rnd_f32(rng) for _ in range(12)], rng.random() < 0.8])
+        else:
+            out.append([k, [rnd_f32(rng) for _ in range(14)], rng.getrandbits(32), rng.random() < 0.8])
+    return out
+
+
+def seq_rnd_scenario(rng, disciplined=False):
+    """runs = list of (geos spec|None, calibs spec|None, system type|None, write failure set, persist ok); one writer object"""
+    nr = rng.choice([16, 16, 16, 2, 4, 1, 8]) if disciplined else rng.choice([16, 16, 16, 2, 4, 1, 8, 17, 0])
+    runs = []
+    for _ in range(rng.choice([1, 1, 2])):
+        g = seq_rnd_spec(rng, 'geo') if rng.random() < 0.8 else None
+        c = seq_rnd_spec(rng, 'calib') if rng.random() < 0.8 else None
+        fails = set()
+        if rng.random() < 0.5:
+            for _k in range(rng.choice([1, 1, 2, 5])):
+                fails.add((rng.choice(['geo', 'calib']), rng.randrange(16)))
+        if nr == 0:                                   # an empty dictionary makes the helper complete synchronously: outside the model
+            g = g or None
+            c = c or None
+        runs.append({'geos': g, 'calibs': c, 'st': rng.choice([None, 1, 2]), 'fails': sorted(fails), 'pok': rng.random() < 0.75})
+    return {'nr': nr, 'runs': runs}
+
+
+def seq_run_scenario(sc, rng=None):
+    """drive the real writer; returns (events as model terms, acts per event, env, per-run summaries)"""
+    env = SeqEnv(nr=sc['nr'])
+    ev_terms, acts, summaries = [], [], []
+
+    def emit(term, a):
+        ev_terms.append(term)
+        acts.append(a)
+
+    for run in sc['runs']:
+        gd, gt, gi = seq_objects('geo', run['geos']) if run['geos'] is not None else (None, None, {})
+        cd, ct, ci = seq_objects('calib', run['calibs']) if run['calibs'] is not None else (None, None, {})
+        fails = set((k, i) for k, i in run['fails'])
+        if rng is not None and rng.random() < 0.3:                      # stray reports while idle
+            ok = rng.random() < 0.5
+            emit('EWriteDone' if ok else 'EWriteFailed', env.write_answer(ok))
+        i0 = len(env.log)
+        a = env.start(gd, cd, run['st'])
+        emit('EStart %s %s %s %d%%nat' % ('None' if gt is None else '(Some %s)' % gt, 'None' if ct is None else '(Some %s)' % ct,
+                                         'None' if run['st'] is None else '(Some %d)' % run['st'], sc['nr']), a)
+        for _guard in range(80):
+            last = a[-1] if a else None
+            if rng is not None and rng.random() < 0.04 and last and last[0] == 1:   # a second start / an early ack in the middle
+                if rng.random() < 0.5:
+                    emit('EStart None None None %d%%nat' % sc['nr'], env.start(None, None, None))
+                else:
+                    emit('EAck true', env.ack(True))
+                    break                                                # the run is broken from here on (exceptions), stop it
+            if last and last[0] == 1:
+                addr = last[1]
+                key = ('geo', addr // 0x100) if addr < 0x1000 else ('calib', (addr - 0x1000) // 0x100)
+                ok = key not in fails
+                a = env.write_answer(ok)
+                emit('EWriteDone' if ok else 'EWriteFailed', a)
+            elif last and last[0] == 3:
+                a = env.ack(run['pok'])
+                emit('EAck %s' % coqrun.coq_bool(run['pok']), a)
+            else:
+                break
+        if rng is None or rng.random() < 0.3:                           # strays after the run: must not cause anything
+            emit('EAck true', env.ack(True))
+            emit('EWriteDone', env.write_answer(True))
+        summaries.append({'log': env.log[i0:], 'geo_imgs': gi, 'calib_imgs': ci})
+    return ev_terms, acts, env, summaries
+
+
+def seq_enc_acts(acts):
+    out = []
+    for a in acts:
+        out.append(len(a))
+        for x in a:
+            out += x
+    return out
+
+
+def seq_reader_scenario(rng):
+    kind = rng.choice(['geo', 'calib'])
+    size = 49 if kind == 'geo' else 61
+    devr = {}
+    for k in range(16):
+        r = rng.random()
+        if r < 0.2:
+            devr[k] = None
+        else:
+            d = bytearray(rng.getrandbits(8) for _ in range(size))
+            d[-1] = rng.choice([0, 1, 1, 2])
+            _quiet(d, range(0, size - 4 if kind == 'geo' else 56, 4))
+            devr[k] = list(d)
+    return {'kind': kind, 'devr': devr, 'twice': rng.random() < 0.4, 'badlen': rng.random() < 0.05}
+
+
+def seq_run_reader(sc, rng=None):
+    env = SeqEnv()
+    kind = sc['kind']
+    sink, ev_terms, acts = [], [], []
+
+    def emit(term, a, before):
+        extra = [[2, len(r)] + [x for (k, o) in r.items() for x in [k] + lh_obj_enc(o)] for r in sink[before:]]
+        ev_terms.append(term)
+        # the callback comes before any exception the same event raised
+        acts.append([x for x in a if x[0] == 1] + extra + [x for x in a if x[0] == 5])
+
+    for rnd in range(2 if sc['twice'] else 1):
+        if rng is not None and rng.random() < 0.3:
+            b = len(sink)
+            emit('RData %s' % ZL(bytes(49 if kind == 'geo' else 61)), env.read_answer(kind, bytes(49 if kind == 'geo' else 61)), b)
+        b = len(sink)
+        a = env.read_start(kind, sink)
+        emit('RStart', a, b)
+        for _guard in range(40):
+            last = acts[-1][-1] if acts[-1] else None
+            if not last or last[0] != 1:
+                break
+            if rng is not None and rng.random() < 0.05:
+                b = len(sink)
+                emit('RStart', env.read_start(kind, sink), b)
+                acts[-1] = [x for x in acts[-1]]
+                # the pending read is still outstanding: put the request marker back for the loop
+                acts[-1].append(['pending'])
+                acts[-1].pop()
+                last = [1, last[1], last[2]]
+            base = 0 if kind == 'geo' else 0x1000
+            k = (last[1] - base) // 0x100
+            d = sc['devr'][str(k)] if str(k) in sc['devr'] else sc['devr'].get(k)
+            if d is not None and sc['badlen'] and k == 7:
+                d = d[:-1]
+            b = len(sink)
+            a = env.read_answer(kind, None if d is None else bytes(d))
+            emit('RFailed' if d is None else 'RData %s' % ZL(d), a, b)
+            if a and a[-1][0] == 5:
+                break
+    return ev_terms, acts, env, sink
+
+
+def seq_tie(ctx, cases):
+    rng = ctx.rng
+    n = ctx.scale(28, 500)
+    regression = {'nr': 1, 'runs': [{'geos': [[0, [1065353216, 0, 0, 1065353216, 0, 0, 0, 1065353216, 0, 0, 0, 1065353216], True]],
+                                      'calibs': None, 'st': None, 'fails': [], 'pok': False}]}
+    for i in range(n):
+        sc = seq_rnd_scenario(rng) if i else regression
+        ev_terms, acts, env, _ = seq_run_scenario(sc, rng if i else None)
+        cases.add('seq_writer', 'enc_acts (cw_trace cws_idle [%s])' % '; '.join(ev_terms), seq_enc_acts(acts),
+                  {'seq_writer': repr(sc)[:500]}, nontrivial=len(ev_terms) > 3)
+    for i in range(n):
+        sc = seq_reader_scenario(rng)
+        ev_terms, acts, env, sink = seq_run_reader(sc, rng)
+        k = 'KGeo' if sc['kind'] == 'geo' else 'KCalib'
+        cases.add('seq_reader', 'enc_racts (rd_trace %s rds_idle [%s])' % (k, '; '.join(ev_terms)), seq_enc_acts(acts),
+                  {'seq_reader': repr(sc)[:300]})
+    return {'seq_writer': n, 'seq_reader': n}
+
+
+
+def seq_expected_log(run, nr):
+    """the conversation the property text prescribes for one write_and_store_config, independent of the model:
+    [system type], geometries (given ones in their order, then the empty object for every missing id below nr), calibrations
+    likewise, one persist request for all ids below nr of the kinds given, then the callback once"""
+    log = []
+    if run['st'] is not None:
+        log.append([2, run['st']])
+    fails = set((k, i) for k, i in run['fails'])
+    all_ok = True
+    for kind, spec, base, empty in (('geo', run['geos'], 0, bytes(49)), ('calib', run['calibs'], 0x1000, bytes(61))):
+        if spec is None:
+            continue
+        entries = [(e[0], _fw_geo_layout(e[1], e[2]) if kind == 'geo' else _fw_calib_layout(e[1], e[2], e[3])) for e in spec]
+        given = set(e[0] for e in spec)
+        entries += [(k, empty) for k in range(nr) if k not in given]
+        for k, img in entries:
+            log.append([1, base + 0x100 * k, len(img)] + list(img))
+            if (kind, k) in fails:
+                all_ok = False
+    gl = list(range(nr)) if run['geos'] is not None else []
+    cl = list(range(nr)) if run['calibs'] is not None else []
+    if gl or cl:
+        log.append([3, len(gl)] + gl + [len(cl)] + cl)
+    log.append([4, int(all_ok)])
+    return log
+
+
+def seq_check(c):
+    if c['op'] == 'writer':
+        # the image clauses of the property on the sequencer: every image handed to the device is the firmware layout of the
+        # object it stands for (given object, or the empty object for a missing id below nr), at the page of its base station,
+        # and the whole device memory afterwards is exactly the accepted writes.  (Order of the steps, system type, persist and
+        # the completion value are compared with the model in the tie; they are not in the property text.)
+        ev_terms, acts, env, summaries = seq_run_scenario(c, None)
+        dev = bytearray(0x2000)
+        for run, sm in zip(c['runs'], summaries):
+            want = sorted(x for x in seq_expected_log(run, c['nr']) if x[0] == 1)
+            got = sorted(x for x in sm['log'] if x[0] == 1)
+            if got != want:
+                k = next((i for i, (a, b) in enumerate(zip(got, want)) if a != b), min(len(got), len(want)))
+                return {'class': 'lh_config_writer_images_differ', 'case': c,
+                        'expected': {'writes': len(want), 'first_difference': (want[k][:14] if k < len(want) else None)},
+                        'observed': {'writes': len(got), 'first_difference': (got[k][:14] if k < len(got) else None)},
+                        'detail': 'write = [1, address, length, bytes...]; every object must reach the device as its firmware image at its page'}
+            fails = set(map(tuple, run['fails']))
+            for x in want:
+                key = ('geo', x[1] // 0x100) if x[1] < 0x1000 else ('calib', (x[1] - 0x1000) // 0x100)
+                if key not in fails:
+                    dev[x[1]:x[1] + x[2]] = bytes(x[3:])
+        if bytes(env.fake.mem) != bytes(dev):
+            return {'class': 'lh_config_writer_device_memory_differs', 'case': c, 'expected': 'accepted writes only',
+                    'observed': [i for i in range(0, 0x2000, 0x100) if env.fake.mem[i:i + 0x100] != dev[i:i + 0x100]]}
+        return None
+    if c['op'] == 'reader':
+        ev_terms, acts, env, sink = seq_run_reader(c, None)
+        rounds = 2 if c['twice'] else 1
+        base, size = (0, 49) if c['kind'] == 'geo' else (0x1000, 61)
+        if env.fake.reads != [(base + 0x100 * k, size) for k in range(16)] * rounds:
+            return {'class': 'lh_read_all_requests_differ', 'case': c, 'expected': '16 reads in order', 'observed': env.fake.reads[:40]}
+        want = {}
+        for k in range(16):
+            d = c['devr'].get(str(k), c['devr'].get(k))
+            if d is not None:
+                fl = [int.from_bytes(bytes(d[4 * j:4 * j + 4]), 'little') for j in range(12 if c['kind'] == 'geo' else 14)]
+                want[k] = ([1, int(d[-1] != 0)] + fl) if c['kind'] == 'geo' else ([1, int(d[-1] != 0), int.from_bytes(bytes(d[56:60]), 'little')] + fl)
+        for res in sink:
+            got = {k: (lh_geo_obs(o) if c['kind'] == 'geo' else lh_calib_obs(o)) for k, o in res.items()}
+            if got != want:
+                return {'class': 'lh_read_all_result_differs', 'case': c, 'expected': sorted(want), 'observed': sorted(got),
+                        'detail': 'the result must hold exactly the stations whose read was answered, decoded from their images'}
+        return None
+    if c['op'] == 'file_to_device':
+        return seq_file_to_device(c)
+    return None
+
+
+def seq_file_to_device(c):
+    """device 1 -> read_all -> file -> LighthouseConfigWriter.write_and_store_config_from_file -> device 2: every valid station
+    byte-identical, every other station below 16 the empty (invalid) object"""
+    from cflib.localization import lighthouse_config_manager as mod
+    tmp = _tmpdir()
+    try:
+        fn = os.path.join(tmp, 's_lh.yaml')
+        env1 = SeqEnv(devmem=lh_device(c))
+        got = {}
+        env1.helper.read_all_geos(lambda d: got.__setitem__('geos', d))
+        env1.fake.run()
+        env1.helper.read_all_calibs(lambda d: got.__setitem__('calibs', d))
+        env1.fake.run()
+        mod.LighthouseConfigFileManager.write(fn, geos=got['geos'], calibs=got['calibs'], system_type=c['st'])
+        env2 = SeqEnv()
+        env2._call(lambda: env2.writer.write_and_store_config_from_file(lambda ok: env2.log.append([4, int(bool(ok))]), fn))
+        for _ in range(40):
+            env2.fake.run()
+            env2._sync_writes()
+            if any(x[0] == 3 for x in env2.log) and not any(x[0] == 4 for x in env2.log):
+                env2.ack(True)
+            else:
+                break
+        dev1 = lh_device(c)
+        want = bytearray(0x2000)
+        for k, v in c['geos'].items():
+            if v[1]:
+                want[0x100 * int(k):0x100 * int(k) + 49] = dev1[0x100 * int(k):0x100 * int(k) + 49]
+        for k, v in c['calibs'].items():
+            if v[2]:
+                a = 0x1000 + 0x100 * int(k)
+                want[a:a + 61] = dev1[a:a + 61]
+        if bytes(env2.fake.mem) != bytes(want):
+            return {'class': 'lh_file_to_device_differs', 'case': c, 'expected': 'valid stations byte-identical, all others the empty object',
+                    'observed': {'pages': [i for i in range(0, 0x2000, 0x100) if env2.fake.mem[i:i + 0x100] != want[i:i + 0x100]]}}
+    finally:
+        _cleanup_tmp()
+    return None
+
+
+def seq_oracle(ctx, deep):
+    rng = ctx.rng
+    fails, n = [], 0
+    for i in range(ctx.scale(90, 900) * (2 if deep else 1)):
+        r = i % 6
+        if r < 3:
+            c = dict(seq_rnd_scenario(rng, disciplined=True), codec='seq', op='writer')
+        elif r < 5:
+            c = dict(seq_reader_scenario(rng), codec='seq', op='reader', badlen=False)
+            c['devr'] = {str(k): v for k, v in c['devr'].items()}
+        else:
+            c = dict(lh_rnd_pipeline_case(rng), codec='seq', op='file_to_device')
+        res = seq_check(c)
+        n += 1
+        if res:
+            fails.append(res)
+    return n, fails
+
+
 # ---------------------------------------------------------------------------------------------- module interface
 
-SECTIONS_TIE = [('crc', crc_tie), ('i2c', i2c_tie), ('ow', ow_tie), ('lh', lh_tie), ('yaml', yaml_tie), ('deck', deck_tie), ('loco', loco_tie), ('traj', traj_tie), ('timings', timings_tie), ('hist', hist_tie), ('cross', cross_tie), ('whist', whist_tie)]
-SECTIONS_ORACLE = [('i2c', i2c_oracle), ('ow', ow_oracle), ('lh', lh_oracle), ('yaml', yaml_oracle), ('deck', deck_oracle), ('loco', loco_oracle), ('misc', misc_oracle), ('hist', hist_oracle), ('cross', cross_oracle), ('whist', whist_oracle)]
+SECTIONS_TIE = [('crc', crc_tie), ('i2c', i2c_tie), ('ow', ow_tie), ('lh', lh_tie), ('yaml', yaml_tie), ('deck', deck_tie), ('loco', loco_tie), ('traj', traj_tie), ('timings', timings_tie), ('hist', hist_tie), ('cross', cross_tie), ('whist', whist_tie), ('seq', seq_tie)]
+SECTIONS_ORACLE = [('i2c', i2c_oracle), ('ow', ow_oracle), ('lh', lh_oracle), ('yaml', yaml_oracle), ('deck', deck_oracle), ('loco', loco_oracle), ('misc', misc_oracle), ('hist', hist_oracle), ('cross', cross_oracle), ('whist', whist_oracle), ('seq', seq_oracle)]
 
 
 def _corpus():
@@ -2850,7 +3307,7 @@ def tie(ctx):
                 'with the model (image bytes or error; valid, callback count, fields, elements in order, exception kind). '
                 'Non-trivial: writer accepted a non-empty content, or the memory is long enough for the header read '
                 '(written images with tails, single-byte corruptions, re-checksummed garbage, hand-made TLV areas). '
-                'CRC-32: all 1-byte inputs, 2-byte inputs (all 65536 in thorough, 12 seeded first bytes x 256 in quick) and random longer ones against binascii.crc32. Compared by a '
+                'CRC-32: all 1-byte inputs, 2-byte inputs (all 65536 in thorough, 8 seeded first bytes x 256 in quick) and random longer ones against binascii.crc32. Compared by a '
                 '61+89-bit digest computed inside Coq; differing blocks are expanded case by case.',
         'samples': samples,
         'distribution': dist,
@@ -2928,5 +3385,6 @@ lh_check, yaml_check, deck_check, loco_check, misc_check = map(_safe, (lh_check,
 i2c_hist_check, ow_hist_check = _safe(i2c_hist_check), _safe(ow_hist_check)
 cross_check = _safe(cross_check)
 whist_check = _safe(whist_check)
+seq_check = _safe(seq_check)
 REPLAYERS = {'lh': lambda c, ctx: lh_check(c), 'yaml': lambda c, ctx: yaml_check(c), 'deck': lambda c, ctx: deck_check(c),
-             'loco': lambda c, ctx: loco_check(c), 'misc': lambda c, ctx: misc_check(c), 'cross': lambda c, ctx: cross_check(c), 'whist': lambda c, ctx: whist_check(c)}
+             'loco': lambda c, ctx: loco_check(c), 'misc': lambda c, ctx: misc_check(c), 'cross': lambda c, ctx: cross_check(c), 'whist': lambda c, ctx: whist_check(c), 'seq': lambda c, ctx: seq_check(c)}
